@@ -42,7 +42,7 @@ def instantiate(toks, sigma, rng):
         if b["k"] == "dots" or ("*" in m and "_" in m):
             out += [rng.randint(1, 3) for _ in range(rng.randint(0, 2))]
         elif "*" in m:
-            s = list(sigma["*" + b["nm"]])
+            s = list(sigma.get("*" + b["nm"], sigma["*v"]))
             if "#" in m and rng.random() < .4 and s:
                 s[rng.randrange(len(s))] = 1
             out += s
